@@ -3,6 +3,7 @@
   reproduce (C02): `toSerial_normal`, and the resulting fixed-point theorem.
 -/
 import HugrVerif.Proofs.SerialLoad
+import HugrVerif.Proofs.SerialWalk
 
 namespace HugrVerif.Serial
 open HugrVerif HugrVerif.Store HugrVerif.Py
@@ -208,10 +209,58 @@ theorem toSerial_normal [Inhabited Ω] (c : OpCodec Ω) (nrm : Ω → Ω) (laws 
                 · rw [← hs]
                 · rw [← hs]
 
+/-! ### the loaded HUGR is walked in index order -/
+
+/-- **The hierarchy walk of a store whose parents have smaller indices and whose children are in
+    index order is `0, 1, …, n-1`.** -/
+theorem hierarchyOrder_range {μ : Type} (s : Store Ω μ) (n : Nat) (parOf : Nat → Nat) (hn : 0 < n)
+    (hroot : s.root = 0) (hlen : s.nodes.length = n)
+    (hpar : ∀ k, 0 < k → k < n → parOf k < k)
+    (hnode : ∀ m, m < n → ∃ dm, getNode s m = .ok dm ∧ childIdxs dm = kids n parOf m) :
+    hierarchyOrder s = .ok (List.range n) := by
+  have hw : WInv n parOf 0 [0] [] := by
+    refine ⟨by simp, ?_, by simp [Dict.NodupKeys, Dict.keys], ?_⟩
+    · intro c
+      simp only [List.mem_singleton, InReady]
+      constructor
+      · intro h; subst h; exact ⟨Nat.le_refl _, hn, Or.inl rfl⟩
+      · intro ⟨_, _, h⟩
+        rcases h with h | ⟨h, _⟩
+        · exact h
+        · omega
+    · intro c _
+      have : ¬ (0 < c ∧ c < n ∧ parOf c < 0) := by omega
+      simp [this, Dict.get]
+  have := hierLoop_range s n parOf hpar hnode n 0 [0] [] (by omega) hw (n + 1) (by omega)
+  unfold hierarchyOrder
+  rw [hroot, hlen]
+  simp only [List.range_zero] at this
+  rw [this]
+  have hf : (liveNodes s).filter (fun i => !(List.range n).contains i) = [] := by
+    apply List.filter_eq_nil_iff.mpr
+    intro i hi
+    unfold liveNodes at hi
+    have := (List.mem_filter.mp hi).1
+    rw [hlen] at this
+    have hlt : i < n := List.mem_range.mp this
+    simp [hlt]
+  simp only [hf, List.append_nil]
+
+/-- Load-then-save is the identity on documents in normal form. -/
+theorem fromSerial_toSerial' (c : OpCodec Ω) (d : Doc) (opOf : Nat → Ω) (parOf : Nat → Nat)
+    (ordOf : Nat → Bool → Option Nat) (hn : NormalDoc c d opOf parOf ordOf) :
+    ∃ s', fromSerial c d = .ok s' ∧
+        ∃ d', toSerial c s' = .ok d' ∧ d'.nodes = d.nodes ∧ d'.edges = d.edges ∧ d'.metadata = d.metadata := by
+  obtain ⟨s', a, _, ⟨r, l, ch⟩, b⟩ := fromSerial_toSerial c d opOf parOf ordOf hn
+  refine ⟨s', a, b ?_⟩
+  have hpos : 0 < d.nodes.length := List.length_pos_iff.mpr hn.nonempty
+  apply hierarchyOrder_range s' d.nodes.length parOf hpos r l
+  · intro k hk hkn; exact hn.dec.earlier k hk hkn
+  · intro m hm; exact ch m hm
+
 /-- **JSON fixed point on the model**: serialise, load, serialise again — same nodes, edges and
-    metadata.  Hypotheses: a lawful operation codec; the index-sanity facts of the hierarchy walk
-    (proved for every reachable store, `Props.C03.index_sane_nodes`); and that the walk of the reloaded
-    HUGR is index order (tied by the correspondence; see DESIGN §11). -/
+    metadata.  Hypotheses: a lawful operation codec, and the index-sanity facts of the hierarchy walk
+    (proved for every reachable store, `Props.C03.index_sane_nodes`). -/
 theorem json_fixed_point [Inhabited Ω] (c : OpCodec Ω) (nrm : Ω → Ω) (laws : CodecLaws c nrm) (s : St Ω)
     (order : List Nat) (ho : hierarchyOrder s = .ok order)
     (hroot0 : order[0]? = some s.root)
@@ -219,10 +268,9 @@ theorem json_fixed_point [Inhabited Ω] (c : OpCodec Ω) (nrm : Ω → Ω) (laws
     (hearlier : ∀ k i p, 0 < k → order[k]? = some i → parentIndex s order i = .ok p → p < k)
     (d : Doc) (h : toSerial c s = .ok d) :
     ∃ s', fromSerial c d = .ok s' ∧
-      (hierarchyOrder s' = .ok (List.range d.nodes.length) →
-        ∃ d', toSerial c s' = .ok d' ∧ d'.nodes = d.nodes ∧ d'.edges = d.edges ∧ d'.metadata = d.metadata) := by
+        ∃ d', toSerial c s' = .ok d' ∧ d'.nodes = d.nodes ∧ d'.edges = d.edges ∧ d'.metadata = d.metadata := by
   obtain ⟨opOf, parOf, ordOf, hn⟩ := toSerial_normal c nrm laws s order ho hroot0 hrootp hearlier d h
-  obtain ⟨s', a, _, b⟩ := fromSerial_toSerial c d opOf parOf ordOf hn
+  obtain ⟨s', a, b⟩ := fromSerial_toSerial' c d opOf parOf ordOf hn
   exact ⟨s', a, b⟩
 
 end HugrVerif.Serial
